@@ -25,7 +25,42 @@ type Point struct {
 	File string `json:"file"`
 	Line int    `json:"line"`
 	Func string `json:"func"`
-	Kind string `json:"kind"` // func | lit | loop
+	Kind string `json:"kind"` // func | lit | loop | sync
+}
+
+// syncCall reports whether a statement contains a call that looks like a synchronisation or pooling operation
+// (sync.Mutex, sync.Pool, fastjson.ParserPool, sync/atomic, sync.Once, sync.Cond ...). The match is by method name: a spurious
+// match only adds a yield point, which is harmless.
+func syncCall(st ast.Stmt) bool {
+	found := false
+	ast.Inspect(st, func(n ast.Node) bool {
+		if _, ok := n.(*ast.FuncLit); ok {
+			return false
+		}
+		call, ok := n.(*ast.CallExpr)
+		if !ok {
+			return true
+		}
+		sel, ok := call.Fun.(*ast.SelectorExpr)
+		if !ok {
+			return true
+		}
+		var recv bytes.Buffer
+		printer.Fprint(&recv, token.NewFileSet(), sel.X)
+		r := strings.ToLower(recv.String())
+		switch sel.Sel.Name {
+		case "Put", "Lock", "Unlock", "RLock", "RUnlock", "TryLock", "Store", "Swap", "CompareAndSwap", "Wait", "Signal", "Broadcast",
+			"StoreInt32", "StoreInt64", "StorePointer", "AddInt32", "AddInt64", "AddUint32", "AddUint64", "LoadInt32", "LoadInt64", "LoadPointer",
+			"CompareAndSwapInt32", "CompareAndSwapInt64", "CompareAndSwapPointer", "LoadOrStore", "LoadAndDelete", "Range":
+			found = true
+		case "Get", "Load", "Add", "Do", "Delete":
+			if strings.Contains(r, "pool") || strings.Contains(r, "atomic") || strings.Contains(r, "once") || strings.Contains(r, "cache") || strings.Contains(r, "sync") {
+				found = true
+			}
+		}
+		return !found
+	})
+	return found
 }
 
 // Result of an instrumentation run.
@@ -81,7 +116,41 @@ func Instrument(repoDir, outDir string) (*Result, error) {
 			call := &ast.ExprStmt{X: &ast.CallExpr{Fun: ast.NewIdent("VerifPoint"), Args: []ast.Expr{&ast.BasicLit{Kind: token.INT, Value: fmt.Sprint(id)}}}}
 			body.List = append([]ast.Stmt{call}, body.List...)
 		}
+		point := func(kind string, pos token.Pos) ast.Stmt {
+			id := len(res.Points)
+			p := fset.Position(pos)
+			res.Points = append(res.Points, Point{ID: id, File: filepath.Base(p.Filename), Line: p.Line, Func: fn, Kind: kind})
+			return &ast.ExprStmt{X: &ast.CallExpr{Fun: ast.NewIdent("VerifPoint"), Args: []ast.Expr{&ast.BasicLit{Kind: token.INT, Value: fmt.Sprint(id)}}}}
+		}
+		// a yield point before and after every statement that performs a synchronisation / pooling call
+		syncList := func(list []ast.Stmt) []ast.Stmt {
+			var out []ast.Stmt
+			for _, st := range list {
+				switch st.(type) {
+				case *ast.ExprStmt, *ast.AssignStmt, *ast.DeclStmt, *ast.IncDecStmt, *ast.SendStmt:
+					if syncCall(st) {
+						out = append(out, point("sync", st.Pos()), st, point("sync", st.Pos()))
+						continue
+					}
+				case *ast.ReturnStmt, *ast.DeferStmt, *ast.GoStmt:
+					if syncCall(st) {
+						out = append(out, point("sync", st.Pos()), st)
+						continue
+					}
+				}
+				out = append(out, st)
+			}
+			return out
+		}
 		ast.Inspect(f, func(node ast.Node) bool {
+			switch x := node.(type) {
+			case *ast.BlockStmt:
+				x.List = syncList(x.List)
+			case *ast.CaseClause:
+				x.Body = syncList(x.Body)
+			case *ast.CommClause:
+				x.Body = syncList(x.Body)
+			}
 			switch x := node.(type) {
 			case *ast.FuncDecl:
 				fn = x.Name.Name
